@@ -1044,6 +1044,7 @@ func genC08(b *builder, n int) {
 	// every shape, results that must not share memory, the other exported lexers,
 	// TypeMaker result shapes, sizes around bufio's buffer, command lines ending
 	// inside a quote or an escape
+	genDeep(b)
 	genScripts(b, n/12, true)
 	genReaders(b, n/40)
 	genReuse9(b, 4)
@@ -1084,6 +1085,7 @@ func genC09(b *builder, n int) {
 	// usage patterns (round 3): tokens keyed on their first bytes and length, escape
 	// boundaries, keyword prefixes, sizes around bufio's buffer, one Decoder driven
 	// by a script of calls, decoding targets, results that must not share memory
+	genWideObjects(b, n/100)
 	genNumLex(b, n < 20000)
 	genWords(b)
 	genEscapes(b, false)
@@ -1277,6 +1279,7 @@ func genC07(b *builder, n int) {
 	genReuse7(b, 6)
 	genFileHist(b, n/40)
 	genBigTokens(b)
+	genReread(b, n/100)
 	// Go values of concrete types through Marshal -> Unmarshal into the same type
 	genGoValues(b, n/3, addPrint0)
 	// code point classes; all code points
